@@ -6,7 +6,7 @@ from ..common import body_by_name, callee_names, callgraph, helper_owners, switc
 from ..inline import inlined, same_impl_helpers
 from ..facts import callee, const_int, const_str, op_const, op_local, op_place
 from ..flow import Flow, identity_through
-from .C12 import closure_of_local, only_err_returns
+from ..scans import SCANS, SCAN_RECEIVER_OK, closure_of_local, found_rejects, only_err_returns, scan_of
 
 CONFIGS_QUICK = ["K1"]
 WITNESS_PREFIX = "C07"
@@ -16,115 +16,6 @@ TECHNIQUE = "static analysis: charset abstract interpretation of the validators,
 M = "mpd_protocol::command::"
 FRAMING_WORDS = ["command_list_begin", "command_list_ok_begin", "command_list_end"]
 MPD_WORD = [(0x30, 0x39), (0x41, 0x5A), (0x5F, 0x5F), (0x61, 0x7A)]     # MPD's command-word alphabet: letters, digits, underscore
-SCANS = {"core::iter::traits::iterator::Iterator::find": "found=Some", "core::iter::traits::iterator::Iterator::position": "found=Some",
-         "core::iter::traits::iterator::Iterator::any": "found=true", "core::iter::traits::iterator::Iterator::all": "found=false"}
-# receivers of a scan may be derived from the validated string only through these
-SCAN_RECEIVER_OK = {"core::str::<impl str>::char_indices", "core::str::<impl str>::chars", "core::str::<impl str>::bytes",
-                    "core::slice::<impl [T]>::iter", "core::str::<impl str>::as_bytes", "core::iter::traits::iterator::Iterator::enumerate",
-                    "core::ops::deref::Deref::deref", "core::iter::traits::collect::IntoIterator::into_iter",
-                    "core::iter::traits::iterator::Iterator::copied", "core::iter::traits::iterator::Iterator::cloned"}
-
-
-def scan_of(prog, body, param=1):
-    """The single character scan in a validator: returns dict(found_edge, notfound_edge, bad set,
-    width, receiver_ok, scan_bb) or raises Opaque."""
-    scans = []
-    for bb, t in body.calls():
-        ns = callee_names(t)
-        kind = next((SCANS[n] for n in ns if n in SCANS), None)
-        if kind is None:
-            continue
-        clos = None
-        for a in t["args"]:
-            l = op_local(a)
-            if l is not None and "closure@" in body.local_ty(l):
-                clos = closure_of_local(prog, body, l)
-        if clos is not None:
-            scans.append((bb, t, clos, kind))
-    if not scans:
-        loop = _loop_scan(prog, body, param)
-        if loop is not None:
-            return loop
-    if len(scans) != 1:
-        raise charset.Opaque("expected exactly one character scan (find/position/any/all with a closure, or one `for` loop over the characters), found %d" % len(scans))
-    bb, t, clos, kind = scans[0]
-    sw = body.blocks[t["target"]]["t"]
-    if sw["k"] != "switch":
-        raise charset.Opaque("the scan result is not tested directly")
-    if kind == "found=Some":
-        found = [b for v, b in sw["targets"] if v == 1]
-        notfound = [b for v, b in sw["targets"] if v == 0] or [sw["otherwise"]]
-        if not found and [b for v, b in sw["targets"] if v == 0]:
-            found = [sw["otherwise"]]
-    else:
-        zero = [b for v, b in sw["targets"] if v == 0]
-        if kind == "found=true":
-            found, notfound = [sw["otherwise"]], zero
-        else:
-            found, notfound = zero, [sw["otherwise"]]
-    if not found or not notfound:
-        raise charset.Opaque("cannot see both outcomes of the scan")
-    acc, width, ncells = charset.accept_set(prog, clos)
-    if kind == "found=false":   # all(valid): the closure accepts valid chars, 'found' = a char that is not accepted
-        acc = charset.complement(acc, width)
-    # receiver provenance
-    fl = Flow(body)
-    recv = op_local(t["args"][0])
-    leaves, _ = fl.sources([recv] if recv is not None else [], through_call=lambda t2, k=None: (0,), follow_mut=False)
-    bad_calls = []
-    for leaf in leaves:
-        if leaf[0] == "call":
-            ns = callee_names(body.blocks[leaf[1]]["t"])
-            if not any(n in SCAN_RECEIVER_OK for n in ns):
-                bad_calls.append(ns[0])
-    receiver_ok = ("param", param) in leaves and not bad_calls and not any(x[0] == "const" for x in leaves)
-    return {"found": found[0], "notfound": notfound[0], "bad": acc, "width": width, "receiver_ok": receiver_ok,
-            "receiver_via": sorted(bad_calls), "bb": bb, "cells": ncells}
-
-
-def _loop_scan(prog, body, param):
-    """`for x in input.chars()/iter()/char_indices()/.. { if bad(x) { return Err(..) } }` — the loop form of the scan."""
-    IT_NEXT = "core::iter::traits::iterator::Iterator::next"
-    nexts = [(bb, t) for bb, t in body.calls() if IT_NEXT in callee_names(t)]
-    if len(nexts) != 1:
-        return None
-    hbb, ht = nexts[0]
-    if ht.get("dest") is None or ht["dest"]["p"] or ht.get("target") is None:
-        return None
-    opt = ht["dest"]["l"]
-    sw = [x for x in tables.discr_switches(body) if x["place"]["l"] == opt and not x["place"]["p"]]
-    if len(sw) != 1:
-        return None
-    some_bb = sw[0]["arms"].get("Some")
-    none_bb = sw[0]["arms"].get("None", sw[0]["otherwise"])
-    if some_bb is None:
-        some_bb = sw[0]["otherwise"]
-    g = Cfg(body)
-    if hbb not in reach(g.succs, [some_bb]):
-        return None   # not a loop
-    bad, err_ok, width, ncells = charset.loop_scan_set(prog, body, some_bb, hbb, opt)
-    # receiver provenance: the iterator is made from the validated input itself
-    fl = Flow(body)
-    recv = op_local(ht["args"][0])
-    leaves, _ = fl.sources([recv] if recv is not None else [], through_call=lambda t2, k=None: (0,), follow_mut=False)
-    bad_calls = []
-    for leaf in leaves:
-        if leaf[0] == "call" and leaf[1] != hbb:
-            ns = callee_names(body.blocks[leaf[1]]["t"])
-            if not any(n in SCAN_RECEIVER_OK for n in ns):
-                bad_calls.append(ns[0])
-    receiver_ok = ("param", param) in leaves and not bad_calls and not any(x[0] == "const" for x in leaves)
-    return {"found": None, "err_ok": err_ok, "notfound": none_bb, "bad": bad, "width": width, "receiver_ok": receiver_ok,
-            "receiver_via": sorted(bad_calls), "bb": hbb, "cells": ncells, "form": "loop"}
-
-
-def found_rejects(V, sc):
-    """a hit of the scan always leads to an Err return"""
-    if sc["found"] is None:
-        return bool(sc.get("err_ok")) and bool(sc["bad"])
-    return only_err_returns(V, sc["found"])
-
-
 def name_rules(rep, prog, cfg):
     build = body_by_name(prog, M + "Command::build")
     if len(build) != 1:
